@@ -29,13 +29,13 @@ mut("seq-forgets-curtailing-parsers", "combinator/seq.go",
 mut("any-forgets-curtailing-parsers", "combinator/any.go", "			cp = cp.Union(cp2)\n", "			_ = cp2\n", ["C01"])
 mut("memoize-curtail-empty-set", "combinator/memoize.go", "			return nil, data.NewIntSet(parserIndex), nil", "			return nil, data.EmptyIntSet, nil", ["C01"])
 mut("curtail-bound-much-larger", "combinator/memoize.go", "ctx.Reader().Remaining(pos)+1", "ctx.Reader().Remaining(pos)+12", ["C02"])
-mut("curtail-bound-one-less", "combinator/memoize.go", "ctx.Reader().Remaining(pos)+1", "ctx.Reader().Remaining(pos)", ["C01", "C05", "C17"], "equivalent for the listed properties per DESIGN")
+mut("curtail-bound-one-less", "combinator/memoize.go", "ctx.Reader().Remaining(pos)+1", "ctx.Reader().Remaining(pos)", ["C01", "C05", "C17"], "the design judged this equivalent; it is not: with the limit one lower a nullable left-recursive rule loses its one-byte derivations (C01 reports N0@0 reaching [0] where the grammar derives [0 1])")
 mut("memoize-hit-drops-error", "combinator/memoize.go", "			return result.Node, result.CurtailingParsers, result.Error", "			return result.Node, result.CurtailingParsers, nil", ["C03", "C06"])
 mut("cache-keyed-without-position", "parsley/result_cache.go", "	rc[parserIndex][pos] = result", "	rc[parserIndex][pos%2] = result", ["C03", "C01"])
 mut("cache-never-reuses-contextfree", "parsley/result_cache.go",
     "	result, found := rc[parserIndex][pos]\n	if !found {\n		return nil, false\n	}",
     "	result, found := rc[parserIndex][pos]\n	if !found || len(leftRecCtx.Keys()) > 0 {\n		return nil, false\n	}", ["C17", "C03"])
-mut("memoize-no-filter", "combinator/memoize.go", "		leftRecCtx = leftRecCtx.Filter(cp)\n", "", ["C17", "C01"], "costs a constant factor only: not a violation per DESIGN")
+mut("memoize-no-filter", "combinator/memoize.go", "		leftRecCtx = leftRecCtx.Filter(cp)\n", "", ["C17", "C01"], "the design judged this a constant factor (two-level grammars); with four or more stacked left-recursive levels the degree exceeds four: C17 reports it on the precedence towers")
 mut("seq-reset-ctx-always", "combinator/seq.go", "	if node.ReaderPos() > pos {", "	if node.ReaderPos() >= pos {", ["C02", "C01"])
 mut("memoize-no-clip", "combinator/memoize.go", "			node = nl[:len(nl):len(nl)]", "			node = nl", ["C01", "C07", "C03"])
 # ---- combinator semantics
@@ -53,7 +53,7 @@ mut("seq-handler-no-copy", "combinator/seq.go",
     "		nodesCopy := make([]parsley.Node, l)\n		copy(nodesCopy, nodes)\n", "		nodesCopy := nodes\n", ["C07", "C01"])
 mut("sentence-eof-exit-ignores-lencheck", "combinator/seq.go",
     "				if s.nodes[depth-1] != nil && s.nodes[depth-1].Token() == parser.EOF {\n					return true\n				}",
-    "				if s.nodes[depth-1] != nil && s.nodes[depth-1].Token() == parser.EOF {\n					return false\n				}", ["C04", "C01"], "only an optimisation: equivalent")
+    "				if s.nodes[depth-1] != nil && s.nodes[depth-1].Token() == parser.EOF {\n					return false\n				}", ["C04", "C01"], "not equivalent: Parse then returns a list of all full parses for an ambiguous grammar and Evaluate answers 'node does not have a value' (the repository suite notices it too)")
 # ---- errors
 mut("seq-error-keeps-lowest", "combinator/seq.go", "(s.err == nil || err.Pos() >= s.err.Pos())", "(s.err == nil || err.Pos() < s.err.Pos())", ["C06"])
 mut("parse-ignores-context-error", "parsley/parse.go", "ctxErr != nil && ctxErr.Pos() > err.Pos()", "ctxErr != nil && false", ["C06"])
